@@ -281,12 +281,16 @@ func (r *Reader) parseWorksheet(data []byte, name string, index int) (*Sheet, er
 			maxRow = row.R
 		}
 		for _, cell := range row.Cells {
-			col, _, err := ParseCellRef(cell.R)
+			col, cellRow, err := ParseCellRef(cell.R)
 			if err != nil {
 				continue
 			}
 			if col > maxCol {
 				maxCol = col
+			}
+			// The row's own r attribute is optional; the cell reference is authoritative.
+			if cellRow+1 > maxRow {
+				maxRow = cellRow + 1
 			}
 		}
 	}
@@ -311,14 +315,13 @@ func (r *Reader) parseWorksheet(data []byte, name string, index int) (*Sheet, er
 
 	// Second pass: populate cells
 	for _, row := range ws.SheetData.Rows {
-		rowIdx := row.R - 1 // Convert to 0-indexed
-		if rowIdx < 0 || rowIdx >= len(sheet.Rows) {
-			continue
-		}
-
 		for _, cellXML := range row.Cells {
-			col, _, err := ParseCellRef(cellXML.R)
+			// Place the cell at the row and column its reference names.
+			col, rowIdx, err := ParseCellRef(cellXML.R)
 			if err != nil {
+				continue
+			}
+			if rowIdx < 0 || rowIdx >= len(sheet.Rows) {
 				continue
 			}
 			if col < 0 || col >= len(sheet.Rows[rowIdx]) {
